@@ -146,4 +146,23 @@ theorem varComps_on_curve (a an b bn c d dn : Nat)
   rw [← hr.2] at hc
   exact hc
 
+/-! ### Row level: a pure curve-addition gate (`Constraint.groupAddVariableBase`) -/
+
+/-- A gate with `q_variable_group_add = 1` and no other selector family active (`qarith = 0`,
+    no public input): the row check is exactly the three curve-addition components. -/
+theorem rowHolds_var (g : Gate) (hv : g.qvar = 1) (ha : g.qarith = 0) (hr : g.qrange = 0)
+    (hl : g.qlogic = 0) (hf : g.qfixed = 0) (a b c d an bn dn : Nat) :
+    rowHolds g a b c d an bn dn 0 = true ↔
+      VarRowF (toF a) (toF b) (toF c) (toF d) (toF an) (toF bn) (toF dn) := by
+  unfold rowHolds
+  have h0 : arithVal g a b c d 0 = 0 := by
+    rw [arithVal_eq_zero]; unfold arithF; simp [ha]
+  simp [hv, hr, hl, hf, h0, varComps_zero_iff_VarRowF]
+
+/-- the gate produced by `Constraint.groupAddVariableBase` satisfies the selector hypotheses -/
+theorem groupAddVariableBase_selectors (s : Constraint) :
+    let g := (Constraint.groupAddVariableBase s).toGate
+    g.qvar = 1 ∧ g.qarith = 0 ∧ g.qrange = 0 ∧ g.qlogic = 0 ∧ g.qfixed = 0 := by
+  simp [Constraint.groupAddVariableBase, Constraint.fromExternal, Constraint.toGate]
+
 end Plonk
